@@ -489,14 +489,23 @@ class Run:
 
   def __init__(self, rec, subject, repeat=True, fresh=False):
     self.rec, self.sub, self.repeat, self.fresh = rec, subject, repeat, fresh
-    if fresh:
-      _PRE_ENV.pop(subject.root_desc.pre, None)
-    self.env = subject.build()
-    if fresh:
-      _PRE_ENV.pop(subject.root_desc.pre, None)
     self.prefix = []
     self.done = []
-    self.broken = False
+    self.broken = self.dead = False
+    if fresh:
+      _PRE_ENV.pop(subject.root_desc.pre, None)
+    try:
+      self.env = subject.build()
+    except Exception as e:  # pylint: disable=broad-except
+      # Not even the valid initial value can be built.
+      self.env = dict(root=None, x=[] if subject.kind == 'list' else {})
+      self.broken = self.dead = True
+      if rec is not None:
+        rec.case(f'{subject.kind}.initial-valid-value', subject.setup, False,
+                 f'constructing a valid initial value raised {type(e).__name__}: {str(e)[:200]}',
+                 'import pyglove as pg\nT=pg.typing;M=pg.MISSING_VALUE\n' + subject.setup)
+    if fresh:
+      _PRE_ENV.pop(subject.root_desc.pre, None)
 
   @property
   def root(self):
@@ -540,6 +549,17 @@ class Run:
     """Runs op, judges it, records the case.  Returns (ok, raised)."""
     if self.broken:      # an earlier step of this history failed: state is off
       return False, None
+    try:
+      return self._step(op, key)
+    except Exception as e:  # pylint: disable=broad-except
+      # Observation itself blew up (reading the state back, re-applying...).
+      self.broken = True
+      self.rec.case(op['cid'] + '/observation-error', key, False,
+                    f'{op["src"]}: observing the state raised {type(e).__name__}: {str(e)[:200]}',
+                    self.witness(op['src'], 'plain(root)'))
+      return False, None
+
+  def _step(self, op, key):
     ok, cid, msg, wit, raised = self._judge(op)
     cached = bool(self.sub.root_desc.pre) and not self.fresh
     if not ok and cached:
@@ -831,6 +851,8 @@ def drv_list_writes(tier, seed):
       for where in wheres:
         sub = list_subjects(elem, lo, hi, n0, where)
         probe = Run(rec, sub)
+        if probe.dead:
+          continue
         n = len(probe.x)
         for op in list_ops(sub, n, samples):
           r = Run(rec, sub)
@@ -853,6 +875,8 @@ def drv_list_histories(tier, seed):
     for lo, hi, n0 in ((1, 3, 2), (0, 2, 1)):
       for where in (('top', 'object') if elem is i05 else ('top',)):
         sub = list_subjects(elem, lo, hi, n0, where)
+        if Run(rec, sub).dead:
+          continue
         # exhaustive length 2 over a reduced alphabet
         pick = lambda ops: [o for o in ops if o['cid'].split('/')[0] in _HIST_OPS]
         first = pick(list_ops(sub, n0, samples))
@@ -1132,6 +1156,8 @@ def _json_lossy(s):
 
 def _run_dict_like(rec, sub, fd, key):
   probe = Run(rec, sub)
+  if probe.dead:
+    return
   present = plain(probe.x)
   for op in dict_ops(sub, fd, present):
     if op.get('result') is _PARTIAL:
@@ -1225,6 +1251,8 @@ def drv_dict_histories(tier, seed):
       for mode in ('full', 'partial', 'scope'):
         sub = mk(fd, 'top', mode)
         probe = Run(rec, sub)
+        if probe.dead:
+          continue
         first = [o for o in dict_ops(sub, fd, plain(probe.x)) if not o.get('result')]
         stride = 13 if tier == 'quick' else 3
         for i, op1 in enumerate(first):
